@@ -112,7 +112,7 @@ type Encoding struct {
 }
 
 // Flags returns the logical flag byte of every point (without REPEAT_FLAG).
-func (e *Encoding) flags(pts []Point) []byte {
+func (e *Encoding) Flags(pts []Point) []byte {
 	ff := make([]byte, len(pts))
 	for i, p := range pts {
 		var f byte
@@ -196,7 +196,7 @@ func EncodeSimple(s *Simple, e *Encoding) ([]byte, error) {
 			return nil, fmt.Errorf("point %d: y delta %d cannot be stored as %v", i, dy[i], e.Y[i])
 		}
 	}
-	ff := e.flags(pts)
+	ff := e.Flags(pts)
 
 	runs := e.Runs
 	if runs == nil {
@@ -271,7 +271,7 @@ func Compact(s *Simple) *Encoding {
 		e.Y[i] = pick(int(p.Y) - py)
 		px, py = int(p.X), int(p.Y)
 	}
-	ff := e.flags(pts)
+	ff := e.Flags(pts)
 	e.Runs = []Run{}
 	for i := 0; i < len(ff); {
 		j := i + 1
@@ -726,8 +726,7 @@ func Parse(glyf, loca []byte, format int) ([]*Glyph, []int, error) {
 // Assemble concatenates glyph records.  recs[i] is header+body of glyph i
 // (empty = no outline); pad[i] extra zero bytes are appended to glyph i
 // (on top of what is needed to reach the alignment align = 1, 2 or 4; short
-// loca needs even offsets).  lead zero bytes are put before the first glyph
-// only if lead > 0 (then loca[0] = lead).
+// loca needs even offsets).
 func Assemble(recs [][]byte, pad []int, align int, format int) (glyf, loca []byte, err error) {
 	offs := make([]int, 0, len(recs)+1)
 	for i, r := range recs {
